@@ -2,8 +2,8 @@ package printer
 
 import (
 	"fmt"
-	"strconv"
 	"strings"
+	"unicode/utf8"
 
 	"reflect"
 
@@ -70,6 +70,42 @@ func getMapValueString(m map[string]interface{}, key string) string {
 	}
 	return ""
 }
+// quoteString renders s as a GraphQL StringValue using only the escape
+// sequences of the GraphQL grammar (strconv.Quote emits Go escapes such as
+// \a, \v, \x7f or \U0001f600 that a GraphQL lexer rejects).
+func quoteString(s string) string {
+	var sb strings.Builder
+	sb.WriteByte('"')
+	for i := 0; i < len(s); {
+		r, size := utf8.DecodeRuneInString(s[i:])
+		switch {
+		case r == utf8.RuneError && size == 1:
+			sb.WriteByte(s[i]) // not valid UTF-8: keep the byte as it is
+		case r == '"':
+			sb.WriteString(`\"`)
+		case r == '\\':
+			sb.WriteString(`\\`)
+		case r == '\b':
+			sb.WriteString(`\b`)
+		case r == '\f':
+			sb.WriteString(`\f`)
+		case r == '\n':
+			sb.WriteString(`\n`)
+		case r == '\r':
+			sb.WriteString(`\r`)
+		case r == '\t':
+			sb.WriteString(`\t`)
+		case r < 0x20:
+			fmt.Fprintf(&sb, `\u%04X`, r)
+		default:
+			sb.WriteString(s[i : i+size])
+		}
+		i += size
+	}
+	sb.WriteByte('"')
+	return sb.String()
+}
+
 func getDescription(raw interface{}) string {
 	var desc string
 
@@ -375,9 +411,9 @@ var printDocASTReducer = map[string]visitor.VisitFunc{
 	"StringValue": func(p visitor.VisitFuncParams) (string, interface{}) {
 		switch node := p.Node.(type) {
 		case *ast.StringValue:
-			return visitor.ActionUpdate, strconv.Quote(node.Value)
+			return visitor.ActionUpdate, quoteString(node.Value)
 		case map[string]interface{}:
-			return visitor.ActionUpdate, `"` + getMapValueString(node, "Value") + `"`
+			return visitor.ActionUpdate, quoteString(getMapValueString(node, "Value"))
 		}
 		return visitor.ActionNoChange, nil
 	},
